@@ -1,3 +1,4 @@
 import Lcapy.Driver.Loop
 import Lcapy.Driver.C08
-def main : IO Unit := Lcapy.Driver.runDriver [Lcapy.Driver.C08.handle]
+import Lcapy.Driver.C08Net
+def main : IO Unit := Lcapy.Driver.runDriver [Lcapy.Driver.C08.handle, Lcapy.Driver.C08Net.handle]
